@@ -171,7 +171,7 @@ fn leak_probes(_: &Ctx) -> Vec<RCase> {
         let mut p = patch.clone();
         p[at + 16 + i] ^= 0x5A;
         let mut c = RCase::explicit("zipatch", "leak:damaged-deflate-stream", vec![p, s.args[1].clone(), vec![0]]);
-        c.reps = 40;
+        c.reps = 120;
         v.push(c);
     }
     for delta in [1i32, -1, 1000] {
@@ -179,12 +179,12 @@ fn leak_probes(_: &Ctx) -> Vec<RCase> {
         let y = i32::from_le_bytes([p[at + 12], p[at + 13], p[at + 14], p[at + 15]]) + delta;
         p[at + 12..at + 16].copy_from_slice(&y.to_le_bytes());
         let mut c = RCase::explicit("zipatch", "leak:wrong-declared-size", vec![p, s.args[1].clone(), vec![0]]);
-        c.reps = 40;
+        c.reps = 120;
         v.push(c);
     }
     // control: the undamaged patch, repeated (must not be reported)
     let mut c = RCase::explicit("zipatch", "leak:control-valid-patch", vec![patch, s.args[1].clone(), vec![0]]);
-    c.reps = 40;
+    c.reps = 120;
     v.push(c);
     v
 }
@@ -354,7 +354,7 @@ fn pre(ctx: &Ctx) {
         problems.push("abort");
     }
     let (o, st) = probe(6, 50);
-    if o != Outcome::Value || st.growth < 49 * 4096 {
+    if o != Outcome::Value || st.growth < 38 * 4096 {
         problems.push("leak measurement");
     }
     let (o, st) = probe(0, 50);
